@@ -99,10 +99,10 @@ def sm(k, x1, x2):
 
 def hamming(k, x1, x2):
     V = k.vocab_size
-    c1 = x1.reshape(*x1.shape[:-1], -1, V).argmax(-1)
-    c2 = x2.reshape(*x2.shape[:-1], -1, V).argmax(-1)
-    dist = (c1.unsqueeze(-2) != c2.unsqueeze(-3)).sum(-1).to(x1.dtype)
+    c1 = x1.reshape(*x1.shape[:-1], -1, V).to(torch.int64).argmax(-1)
+    c2 = x2.reshape(*x2.shape[:-1], -1, V).to(torch.int64).argmax(-1)
     a, b = k.alpha.detach(), k.beta.detach()
+    dist = (c1.unsqueeze(-2) != c2.unsqueeze(-3)).sum(-1).to(a.dtype)  # (whatever dtype the one-hots are stored in)
     a = a.reshape(*a.shape[: len(k.batch_shape)], 1, 1)
     b = b.reshape(*b.shape[: len(k.batch_shape)], 1, 1)
     return ((1 + a) / (a + dist)) ** b
